@@ -513,18 +513,20 @@ type EnumVar struct {
 }
 
 type Lemma struct {
-	Using    []string
-	Name     string
-	Params   []Param
-	Clauses  []*Clause
-	Props    []string
-	Induct   string    // induction variable (hypothesis at value-1)
-	Enum     []EnumVar // parameters enumerated over a finite range (exhaustive = complete)
-	Triggers []Expr
-	TrigText string
-	File     string
-	Line     int
-	Pkg      string
+	Using     []string
+	Name      string
+	Params    []Param
+	Clauses   []*Clause
+	Props     []string
+	Induct    string    // induction variable (hypothesis at value-1)
+	HeapValid bool      // elements stored in the value heaps are valid values (needed when hypotheses are instantiated at elements)
+	General   []string  // parameters the induction hypothesis is universally quantified over (structural induction)
+	Enum      []EnumVar // parameters enumerated over a finite range (exhaustive = complete)
+	Triggers  []Expr
+	TrigText  string
+	File      string
+	Line      int
+	Pkg       string
 }
 
 type TypeInv struct {
@@ -802,6 +804,15 @@ func (ss *SpecSet) parseSpecText(file, pkgPath, text string) {
 		case "induct":
 			if curLemma != nil {
 				curLemma.Induct = strings.TrimSpace(rest)
+			}
+		case "heapvalid":
+			if curLemma != nil {
+				curLemma.HeapValid = true
+			}
+		case "generalize":
+			// //@ generalize a b : the induction hypothesis holds for all values of these parameters
+			if curLemma != nil {
+				curLemma.General = strings.Fields(rest)
 			}
 		case "enumerate":
 			// //@ enumerate a 0 30
